@@ -26,6 +26,10 @@ type Scenario struct {
 	FreeBound int
 	MaxEx     int // cap on executions (0 = none); hitting it clears Exhaustive
 	Params any // written into replay files so that the scenario can be rebuilt
+	// TolerateDivergence: the scenario contains nondeterminism the harness cannot own (e.g. the buffer pool
+	// flushing dirty pages in map iteration order); a prefix that does not replay is dropped and counted,
+	// and the exploration is reported as not exhaustive.
+	TolerateDivergence bool
 }
 
 type Harness struct {
@@ -185,6 +189,12 @@ func exploreSched(c *Ctx, sc *Scenario, split bool) {
 	run := func(w workItem, count bool) (*ExecInfo, bool) {
 		x, v, outcome, div := RunSchedule(sc, w.prefix)
 		if div != "" {
+			if sc.TolerateDivergence {
+				res.Exhaustive = false
+				res.Note("%s: some schedule prefixes did not replay (nondeterminism inside the scenario that the harness does not own); they were dropped", sc.Name)
+				res.PerOp[sc.Name+".diverged_prefixes"]++
+				return nil, false
+			}
 			res.Nondet = append(res.Nondet, fmt.Sprintf("%s: replay of prefix diverged: %s", sc.Name, div))
 			return nil, false
 		}
